@@ -121,6 +121,12 @@ func c15(r *report.Run) {
 	// a map environment types its members from the sample value)
 	rawSrcs = append(rawSrcs, "PI == 250", "250 == PI", "PI != 250", "PI in [250, 1]", `PS == "a"`, `PS != "a"`, `PS in ["a"]`, "PI == nil", "PI == PI",
 		"(X + 1) in 1..300", "(X + 1) not in 1..300", "(I * X) in 1..300", "(X - 1) in [249, 1]", "-X in -300..0", "X + 1 == 251", "(B ? 1 : X) in 1..300", "X in 1..300")
+	for _, inner := range []string{"count(A, {# > 0}) > 0", "all(A, {# > 0 - 9})", "any(A, {# > 0 - 9}) or true", "none(A, {# > 99})", "one(A, {# == 1}) or true", "len(filter(A, {# > 0})) >= 0", "len(map(A, {# + 1})) >= 0"} {
+		for _, outer := range []string{"filter(FA, {%s and # in 1..3})", "map(FA, {%s and # in [1, 2, 3]})", "count(FA, {%s and # == 2}) + 0", "all(SA, {%s and len(#) >= 0})", "filter(FA, {# in 1..3 and %s})"} {
+			rawSrcs = append(rawSrcs, fmt.Sprintf(outer, inner))
+		}
+	}
+	rawSrcs = append(rawSrcs, "any(map(AA, {map(#, {# * 2})}), {any(#, {# in 1..3})})", "map(map(AA, {map(#, {# * 2})}), {filter(#, {# in [1, 2, 3]})})", "count(map(AA, {map(#, {# + 1})}), {count(#, {# in 2..9}) > 0})")
 	for _, src := range append(rawSrcs, []string{"I in [-(-1), 5]", "I in [- -1, 3]", "I not in [-(+(-1))]", "I in [+1, -(-(-1))]", "I in [1, -1]", "J in [-1, -(-2)]", `S in ["a", "a" + "b"]`,
 		"F + J / 2", "F * (I / 2) + J", "I64 % 3 == 1", "I8 % 2 == 1", "F32 + 1 + 1", "MI == 1 or MI == 0", `MS == "a"`}...) {
 		rawOrder++
@@ -146,6 +152,8 @@ func c15(r *report.Run) {
 					if strings.Contains(src, "X") {
 						e.X = []interface{}{249.5, 250, int8(50), 250.0}[vi]
 					}
+					e.FA = [][]float64{{1.5, 2, 7.5}, {}, {0.5, 3}, {2}}[vi]
+					e.AA = []interface{}{[]interface{}{0.75}, []interface{}{8}}
 					return e
 				}
 				var got interface{}
